@@ -265,6 +265,15 @@ SetConditionsE(concQ, t0Q, t1Q, env) ==
     /\ kstage' = "conditions" /\ UNCHANGED <<sys, conf, khist, vars>>
 SetConditions(concQ, t0Q, t1Q) == SetConditionsE(concQ, t0Q, t1Q, DefaultEnv)
 
+ScanMults == <<<<1, 1>>, <<2, 1>>, <<1, 2>>>>
+UsedOf == { s \in SubstSet : { j \in 1..Len(sys) : sys[j].rx.reac[s] > 0 \/ sys[j].rx.prod[s] > 0 } # {} }
+SubIdx(s) == CHOOSE i \in 1..Len(Subst) : Subst[i] = s
+ScanSub == CHOOSE s \in UsedOf : \A t \in UsedOf : SubIdx(s) <= SubIdx(t)
+ScanConc(i) == [s \in SubstSet |-> IF s = ScanSub THEN Qty(NMul(NFromQ(ScanMults[i]), cond.conc[s].mag), cond.conc[s].ux)
+                                   ELSE cond.conc[s]]
+TermsAt(conc, s) ==
+    LET js == SelectSeq([j \in 1..Len(sys) |-> j], LAMBDA j : Net(sys[j].rx, s) # 0)
+    IN  [i \in 1..Len(js) |-> [c |-> Net(sys[js[i]].rx, s), r |-> RateSI(sys[js[i]], conc), x |-> ExpoOf(sys[js[i]]), x2 |-> Expo2Of(sys[js[i]])]]
 (* the rates obtained in a registry, read back in SI, and the units reported for the parameters *)
 E_PhysicalRate(reg) ==
     [ rates |-> [s \in SubstSet |-> Terms(s)],
@@ -279,6 +288,13 @@ E_PhysicalRate(reg) ==
       rrates |-> [j \in 1..Len(sys) |-> [c |-> 1, r |-> RateSI(sys[j], cond.conc), x |-> ExpoOf(sys[j]), x2 |-> Expo2Of(sys[j])]],
       e_units |-> [j \in 1..Len(sys) |-> RegUnit(reg, EaDim(sys[j]))],
       tev |-> MagInU(cond.t1, TimeUnit(reg)),
+      \* a variation of the initial state: several concentration vectors at once (the first substance of the
+      \* system takes ScanMults times its concentration, every substance stays in its own unit); each row is
+      \* judged like a single state
+      scan |-> [i \in 1..Len(ScanMults) |->
+                  [ cin |-> [s \in SubstSet |-> CIn(reg, ScanConc(i)[s])],
+                    rates |-> [s \in SubstSet |-> TermsAt(ScanConc(i), s)] ]],
+      scansub |-> ScanSub, scanmults |-> ScanMults,
       cin |-> [s \in SubstSet |-> CIn(reg, cond.conc[s])],
       p_units |-> [j \in 1..Len(sys) |-> RegUnit(reg, KParamDim(sys[j]))],
       \* evaluating, validating or solving is an observation: the constants the caller holds are still
